@@ -67,13 +67,29 @@ Ltac conv_loop_weight body enc a :=
       f_equal; f_equal; unfold py_len; cbn [length]; rewrite Nat2N.inj_succ, N.pow_succ_r'; lia ]
   | change 20 with (20 * 1) at 1; rewrite L; destruct (ms_loop enc 1 a); reflexivity ].
 
+(** third shape: [lsdigit[last] + sum(msdigit[l] * pow(5, exp) * 20 for exp, l in enumerate(reversed(init)))] *)
+Ltac conv_loop_sum body enc a :=
+  assert (L : forall l e acc a0, option_map (N.add a0) (py_for_enum body e l acc) = ms_loop l (5 ^ e) (a0 + acc));
+  [ let l := fresh "l" in let c := fresh "c" in let IH := fresh "IH" in
+    induction l as [|c l IH]; intros e acc a0;
+    [ reflexivity
+    | cbn [py_for_enum ms_loop]; unfold body at 1; rewrite gen_msdigit_eq;
+      destruct (msdigit c) as [d|]; [|reflexivity];
+      fold body; rewrite IH; rewrite N.pow_add_r, N.pow_1_r;
+      replace (5 ^ e * 5) with (5 * 5 ^ e) by lia;
+      replace (a0 + (acc + d * 5 ^ e * 20)) with (a0 + acc + d * 5 ^ e * 20) by lia; reflexivity ]
+  | specialize (L enc 0 0 a); rewrite N.add_0_r in L; change (5 ^ 0) with 1 in L; rewrite <- L;
+    destruct (py_for_enum body 0 enc 0); reflexivity ].
+
 Theorem gen_convert_to_number_eq : forall w, gen_convert_to_number w = decode_word w.
 Proof.
   intros w. unfold gen_convert_to_number, decode_word. cbv zeta.
   destruct (rev w) as [|f enc]; [reflexivity|].
   rewrite gen_lsdigit_eq. destruct (lsdigit f) as [a|]; [|reflexivity].
-  match goal with |- context [py_for ?b enc _] => set (body := b) end.
-  first [ conv_loop_exp body enc a | conv_loop_weight body enc a ].
+  rewrite ?rev_involutive.
+  first [ match goal with |- context [py_for ?b enc _] => set (body := b) end;
+          first [ conv_loop_exp body enc a | conv_loop_weight body enc a ]
+        | match goal with |- context [py_for_enum ?b 0 enc 0] => set (body := b) end; conv_loop_sum body enc a ].
 Qed.
 
 (* ------------------------------------------------------------------------------------------ *)
